@@ -37,8 +37,13 @@ func vSameListing(tag string, l *Lines, code *deps.Code) {
 
 func VerifC23Listing() {
 	words := rvprog.ThreeBlocks
-	if sym.Param("program", 0) == 1 {
+	switch sym.Param("program", 0) {
+	case 1:
 		words = rvprog.TwoBlocks
+	case 2:
+		words = rvprog.FourBlocks
+	case 3:
+		words = rvprog.Blocks441
 	}
 	code, err := rvprog.Build(words, rvprog.Base)
 	sym.Assert(err == nil, "program builds")
